@@ -3,6 +3,7 @@ package main
 import (
 	"encoding/binary"
 	"fmt"
+	"io"
 	"os"
 )
 
@@ -59,6 +60,25 @@ func init() {
 	// [kind, [hasver, ver, payload], [[accept, fail], ...]]
 	Exec["pbcmpl.Marshal/faulty"] = func(a []V) string {
 		return c06RunMarshal(a[0].Int(), a[1], a[2].L)
+	}
+	// widening: [kind, [chunk...], terminal kind, with last]: explicit chunks, empty ones included
+	Exec["pbcmpl.Unmarshal/chunks"] = func(a []V) string {
+		var chunks [][]byte
+		total := 0
+		var all []byte
+		for _, c := range a[1].L {
+			b := append([]byte{}, c.Bytes()...)
+			chunks = append(chunks, b)
+			total += len(b)
+			all = append(all, b...)
+		}
+		c07About("pbcmpl.Unmarshal/chunks", all, func() string { return c07ArgsText(a) })
+		r := &c06Reader{chunks: chunks, terr: io.EOF, withLast: a[3].Bool()}
+		if a[2].Int() != 0 {
+			r.terr = c06Injected
+		}
+		steps, left := c06RunStream(a[0].Int(), r, total)
+		return L(steps, left)
 	}
 	// widening: [stream bytes, chunk pattern, terminal kind, with last]
 	Exec["pbcmpl.Walk/bytes"] = func(a []V) string {
@@ -288,6 +308,71 @@ func genC07(g *Gen) {
 		stream(g.R.Pick(0, 2), s, pat, tk, wl, key, "arbitrary-bytes")
 		if i%4 == 0 {
 			readHeader(s, pat, tk, wl, "rh/"+key)
+		}
+	}
+
+	// (6) widening: readers that return (0, nil): explicit chunk lists with empty chunks sprinkled in
+	// (never as the last chunk), over valid frames, cut frames, corrupt headers and arbitrary bytes
+	chunked := func(kind int, s []byte, tk int, wl bool, class string) {
+		cs := c06Chunks(c06Pattern(g.R), append([]byte{}, s...))
+		ne := g.R.Range(1, 4)
+		for e := 0; e < ne && len(cs) > 0; e++ {
+			at := g.R.Intn(len(cs)) // before chunk `at`, so never last
+			cs = append(cs[:at], append([][]byte{{}}, cs[at:]...)...)
+			if g.R.Intn(3) == 0 { // a run of empties
+				cs = append(cs[:at], append([][]byte{{}}, cs[at:]...)...)
+			}
+		}
+		xs := make([]string, len(cs))
+		for i, c := range cs {
+			xs[i] = Bytes(c)
+		}
+		g.Stat("empty-chunks:" + class)
+		g.Do("pbcmpl.Unmarshal/chunks", L(Int(kind), L(xs...), Int(tk), B(wl)), fmt.Sprintf("chk/k%d/%s/t%d/wl%s/n%d", kind, class, tk, B(wl), len(cs)))
+	}
+	n = g.N(500, 12000)
+	for i := 0; i < n; i++ {
+		kind := g.R.Intn(3)
+		var s []byte
+		nf := g.R.Range(1, 3)
+		for f := 0; f < nf; f++ {
+			bl := g.R.Pick(0, 1, 31, 32, 33, g.R.Range(0, 80), g.R.Range(500, 600))
+			s = append(s, c07Frame(kind, c06Ver(g.R, g.R.Range(0, 16), g.R.Intn(3)), c06Payloadgen(g.R, bl))...)
+		}
+		class := "frames"
+		switch g.R.Intn(5) {
+		case 0: // cut
+			s = s[:g.R.Intn(len(s))]
+			class = "cut"
+		case 1: // corrupt a header field of the first frame (raw kinds only: BytesValue bodies are fed as valid encodings only)
+			if kind == 1 {
+				break
+			}
+			binary.LittleEndian.PutUint64(s[16+8*g.R.Intn(2):], c07U64(g.R))
+			class = "corrupt"
+		case 2:
+			if kind == 1 {
+				break
+			}
+			s = g.R.Bytes(g.R.Range(1, 100), alphabets[g.R.Intn(len(alphabets))])
+			class = "arbitrary"
+		}
+		chunked(kind, s, g.R.Intn(2), g.R.Bool(), class)
+	}
+	// the frame boundary cases with an empty chunk exactly at the boundary
+	for kind := 0; kind <= 1; kind++ {
+		f := c07Frame(kind, "1.2.3", []byte("abc"))
+		for _, at := range []int{0, 1, 31, 32, 33, len(f) - 1} {
+			for tk := 0; tk <= 1; tk++ {
+				for wl := 0; wl <= 1; wl++ {
+					xs := []string{Bytes(f[:at]), Bytes(nil), Bytes(nil), Bytes(f[at:])}
+					if at == 0 {
+						xs = xs[1:]
+					}
+					g.Stat("empty-chunks:boundary")
+					g.Do("pbcmpl.Unmarshal/chunks", L(Int(kind), L(xs...), Int(tk), B(wl == 1)), fmt.Sprintf("chk/k%d/boundary%d/t%d/wl%d", kind, at, tk, wl))
+				}
+			}
 		}
 	}
 
